@@ -413,7 +413,7 @@ def match_known(known, pid, sig):
 def write_replay(pid, idx, payload):
     d = os.path.join(WORK, "replays", pid)
     os.makedirs(d, exist_ok=True)
-    p = os.path.join(d, "replay-%d.json" % idx)
+    p = os.path.join(d, "replay-%d-%d.json" % (os.getpid(), idx))
     with open(p, "w") as f:
         json.dump(payload, f, indent=1)
     return p
@@ -435,8 +435,9 @@ def replay(pid, path):
     dbin = None
     if stream.get("driver"):
         dbin, _ = build_driver(stream["driver"])
-    d = os.path.join(WORK, "replays", pid, "run")
+    d = os.path.join(WORK, "replays", pid, "run.%d" % os.getpid())
     os.makedirs(d, exist_ok=True)
+    atexit.register(lambda: shutil.rmtree(d, ignore_errors=True))
     opsf = os.path.join(d, "in.ops")
     with open(opsf, "w") as f:
         f.write(rp["op"] + "\n")
@@ -460,10 +461,23 @@ def run_check(pid, tier, seed):
     sync_alt()
     cfg, mod = load_config(pid)
     known = load_known()
-    workdir = os.path.join(WORK, "runs", pid)
+    # per-process run directory: two runs of the same check (a sweep and a builder, say) never
+    # delete each other's files; removed at exit unless VERIF_KEEP=1
+    workdir = os.path.join(WORK, "runs", "%s.%d" % (pid, os.getpid()))
     shutil.rmtree(workdir, ignore_errors=True)
     os.makedirs(workdir, exist_ok=True)
-    shutil.rmtree(os.path.join(WORK, "replays", pid), ignore_errors=True)
+    if os.environ.get("VERIF_KEEP") != "1":
+        atexit.register(lambda: shutil.rmtree(workdir, ignore_errors=True))
+    # replay files of earlier runs are kept for a day (a VIOLATION line names one)
+    rdir = os.path.join(WORK, "replays", pid)
+    if os.path.isdir(rdir):
+        for fn in os.listdir(rdir):
+            fp = os.path.join(rdir, fn)
+            try:
+                if os.path.isfile(fp) and time.time() - os.path.getmtime(fp) > 86400:
+                    os.remove(fp)
+            except OSError:
+                pass
 
     notes = []
     with locked("lean"):
